@@ -1,0 +1,8 @@
+//go:build verif
+
+package rpc
+
+import "github.com/basecomplextech/spec/mpx"
+
+// verifYield forwards to the schedule point hook of the mpx package (build tag verif only).
+func verifYield(point int) { mpx.VerifYield(point) }
